@@ -9,171 +9,98 @@ PY = '/venv/bin/python'
 CHECKS = {
     'C01': dict(
         technique='explicit-state BFS over real SimulatedBroker histories vs exact Fraction ledger',
-        text='Every history of account/portfolio transfers, portfolio creation, order submission, clock '
-             'updates and quote changes up to the stated depth, from four initial states (empty, funded, '
-             'long, short with negative cash) and 3-5 fee configurations, is executed on the real broker; '
-             'after every transition master/portfolio cash, account totals, the event history (cents rule) '
-             'and global conservation are compared with an exact ledger.',
-        note='Trusted: the harness ledger (Fractions), the stub data handler, the recorder wrapped around '
-             'Portfolio.transact_asset. Values outside the alphabet are not covered.',
+        text='Explicit-state BFS over every history of account/portfolio transfers (incl. sub-cent amounts and the quoted rounded balance), portfolio creation, order submission, clock updates and quote changes up to the stated depth, from four initial states (empty, funded, long, short with negative cash) under several fee models (zero, percentage, sub-half-cent commissions) and base currencies (USD, GBP, EUR), executed on the real broker with every intermediate state read back; after every transition master/portfolio cash, the balances of the other currencies, account totals, the event history (cents rule), history_to_df and global conservation are compared with an exact Fraction ledger. Plus every cycle of <= 2 events repeated 40-400 times (count-dependent behaviour).',
+        note='Trusted: the harness ledger (Fractions), the stub data handler, the recorder wrapped around Portfolio.transact_asset. Values outside the alphabet are not covered.',
         design='5/C01'),
     'C02': dict(
         technique='explicit-state BFS over real broker/portfolio histories vs exact holdings ledger',
-        text='Every history of submissions, clock updates (marks then fills), quote switches and portfolio-level '
-             'price marks up to the stated depth on two portfolios (from a flat and from a long/short initial '
-             'state) is executed on the real code; after every transition the holdings report (membership, '
-             'quantity, market value at the last price seen), total market value and total equity are compared '
-             'with the ledger built from the fills as recorded.',
-        note='Trusted: harness ledger, stub data handler (mid = (bid+ask)/2), transact_asset recorder. Close-to-zero, '
-             're-open and flip-through-zero are reachable within depth 2 by construction of the quantities (2,3,5).',
+        text='BFS over histories of submissions, clock updates (marks then fills), quote switches and portfolio-level price marks on two portfolios holding two assets (one with a mixed-case symbol); a complete tree of Portfolio.transact_asset / update_market_value_of_asset histories incl. lots of a million with residuals of a few shares; long periodic histories. After every transition holdings membership, quantity, market value at the last price seen, total market value and equity are compared with the ledger built from the fills as recorded.',
+        note='Trusted: harness ledger, stub data handler (mid = (bid+ask)/2), transact_asset recorder. Close-to-zero, re-open and flip-through-zero are reachable within depth 2 by construction of the quantities (2,3,5).',
         design='5/C02'),
     'C04': dict(
         technique='explicit-state BFS over submit/clock-update interleavings with real SimulatedExchange',
-        text='All interleavings of order submissions (2 portfolios x 2 assets x buy/sell) with clock updates to every '
-             'instant of a 10-instant horizon (both boundaries 14:30:00 and 21:00:00, one second either side, '
-             'Saturday, Sunday, Monday) and quote switches up to the stated depth; per transition: pending queues, '
-             'the exact set/order of fills of that update (once, in full, sells first, submission order), nothing '
-             'filled while closed.',
-        note='Trusted: reference exchange hours computed from datetime fields; pending orders are read from '
-             'SimulatedBroker.open_orders. Cross-portfolio same-side order is not compared.',
+        text='BFS over all interleavings of submissions (2 portfolios x 2 assets x buy/sell, also orders reusing a user-chosen id) with clock updates to every instant of a 10-instant horizon (both boundaries, one second either side, weekend) and quote switches (incl. a penny quote); per transition the pending queues and the exact set/order of fills. Plus: every day of a year (four years in thorough) x 13 boundary times through real fills, long periodic histories, and single batches of up to 800 orders.',
+        note='Trusted: reference exchange hours computed from datetime fields; pending orders are read from SimulatedBroker.open_orders. Cross-portfolio same-side order is not compared.',
         design='5/C04'),
     'C05': dict(
         technique='exhaustive product enumeration of fills on the real broker vs documented fee rule',
-        text='Full product of 26 fee configurations x 4 quote tables (crossed and sub-dollar included) x assets x signed '
-             'quantities x open instants, plus buy+sell batches: each point is submit + update on the real broker; price '
-             'side, commission = (c+t) x |round(price x qty)|, non-negativity, buy/sell symmetry and time stamp checked.',
-        note='Trusted: stub data handler with bid != ask; exact Fraction arithmetic for the expected commission; ties '
-             'in consideration rounding accept both neighbours.',
+        text='Full product of 50 fee configurations (incl. sub-basis-point rates) x 5 quote tables (crossed, sub-dollar, very large / penny) x assets x signed quantities x open instants, plus buy+sell batches, two live brokers used alternately, and update times given in other time zones: price side, commission = (c+t) x |round(price x qty)|, the amount actually debited from cash, non-negativity, symmetry and time stamp.',
+        note='Trusted: stub data handler with bid != ask; exact Fraction arithmetic for the expected commission; ties in consideration rounding accept both neighbours.',
         design='5/C05'),
     'C15': dict(
         technique='explicit-state BFS for the reachable states + exhaustive fault injection at every state',
-        text='The reachable states of valid broker histories (3 initial states, stated depth) are enumerated; at each one '
-             'every refusal kind named by the property is injected on a fresh rebuild: documented error type, no silent '
-             'acceptance, full before/after snapshot equality (cash, holdings, pending orders, history) and a one-step '
-             'differential when private state differs.',
-        note='Trusted: snapshot covers exactly the observables the statement lists; private clocks are not compared. '
-             'One fault per path (a refused fault is proved to change nothing, so sequences reduce to this case).',
+        text='Reachable states of valid broker histories (3 initial states incl. a portfolio with two assets; events incl. direct portfolio credits and price marks stamped later than the broker clock) x every refusal kind: negative / tiny negative / excess / epsilon-excess amounts, unknown and duplicate ids, unsupported currency, earlier timestamps (also written in another time zone), refusals stamped later than the portfolio clock, negative price marks, fills the position refuses, broker updates below any clock: documented error type, no silent acceptance, full snapshot equality and a one-step differential.',
+        note='Trusted: snapshot covers exactly the observables the statement lists; private clocks are not compared. One fault per path (a refused fault is proved to change nothing, so sequences reduce to this case).',
         design='5/C15'),
     'C03': dict(
         technique='complete tree enumeration of fill/mark histories on real Position and Portfolio objects',
-        text='Every history of fills (6 signed quantities x prices x commissions) and price marks up to depth 4-5 is '
-             'executed on the real Position object and through Portfolio.transact_asset (positions discarded at zero and '
-             're-opened); on every prefix the P&L identities (total = realised + unrealised = market value - cash flows; '
-             'unrealised from the open-side average cost; a mark changes nothing realised) are compared with an exact '
-             'cash-flow ledger. All realisable running net-sign paths (long/short/flat/flipped) are shown covered.',
-        note='Decides the identities on a generic decimal alphabet and every control path up to k fills, not for all reals; '
-             'no random long sequences (sampling is another family).',
+        text='Complete trees of fill/mark histories on the real Position object and through Portfolio.transact_asset (positions discarded at zero and re-opened): generic decimals depth 4, large magnitudes (1e6 lots, residual 5), negative commissions, fills the position refuses, and every cycle of <= 2 events repeated 60-2000 times; on every prefix the P&L identities are compared with an exact cash-flow ledger. All realisable running net-sign paths are shown covered.',
+        note='Decides the identities on a generic decimal alphabet and every control path up to k fills, not for all reals; no random long sequences (sampling is another family).',
         design='5/C03'),
     'C10': dict(
         technique='exhaustive input-grid enumeration of the real long-only sizer vs exact budget inequalities',
-        text='Full product equity x buffer x fee rate x weight vectors (1-3 assets, unnormalised/sparse/all-zero) x price '
-             'vectors: each point is a real DollarWeightedCashBufferedOrderSizer call on a real funded broker with a real '
-             'fee model; q is a non-negative int, q*p+fee <= allocation < (q+1)*p+fee, total <= (1-b)E; refusal grid for '
-             'negative weights, buffers outside [0,1] and NaN prices.',
+        text='Full product equity x buffer x fee rate x weight vectors (1-3 assets; unnormalised, sparse, all-zero, near-unity sums, ints and floats) x price vectors (incl. sub-cent digits) on ONE sizer object per group - all weight vectors, then changed quotes at the same timestamp, an asset subset, withdrawn funds: q is a non-negative int with q*p+fee <= allocation < (q+1)*p+fee; refusal grids for negative weights, buffers outside [0,1], NaN prices, also through the QuantTradingSystem / BacktestTradingSession wiring.',
         note='Trusted: Fraction arithmetic of the reference; results within 1e-9 of a floor boundary accept both neighbours.',
         design='5/C10'),
     'C11': dict(
         technique='exhaustive input-grid enumeration of the real long/short sizer vs exact truncation rule',
-        text='Full product equity x leverage x fee rate x signed weight vectors x price vectors on the real '
-             'LongShortLeveragedOrderSizer: int quantities with the sign of the weight, truncation toward zero, maximality '
-             'to within one currency unit, gross exposure <= L*E*(1+f); refusal grid for non-positive leverage and NaN prices.',
+        text='As C10 for the long/short sizer: int quantities with the sign of the weight, truncation toward zero, maximality to within one currency unit, gross exposure <= L*E*(1+f), on one sizer object per group with changing quotes / assets / equity; refusal grids for non-positive leverage (also through the system wiring) and NaN prices.',
         note='Trusted: Fraction arithmetic of the reference; boundary cases counted in boundary_ambiguous.',
         design='5/C11'),
     'C12': dict(
         technique='exhaustive calendar enumeration of the real simulation engine vs independent date arithmetic',
-        text='Every start date of the window (quick: 447 consecutive days incl. year end and leap day; thorough: the full '
-             '28-year weekday/leap cycle and February 2100) x range lengths x start/end times x all four pre/post flag '
-             'combinations: the emitted event stream is compared event by event with a datetime.date reference, strict '
-             'monotonicity is checked, and end < start must raise ValueError.',
+        text='Every start date of the window (quick: 447 consecutive days + a window across 1969/70; thorough: the 28-year cycle, Feb 1900/2100) x range lengths x start/end times x all four pre/post flags, plus ranges of 1-3 years from month starts of 2014-2021: the emitted stream is compared event by event with a datetime.date reference; engines are iterated again after a full and after an abandoned pass; end < start must raise.',
         note='Trusted: datetime.date weekday arithmetic. End time of day never before the start time of day (quantifier).',
         design='5/C12'),
     'C13': dict(
         technique='exhaustive calendar enumeration of the real rebalance schedules vs independent date arithmetic + clock membership',
-        text='Same calendar enumeration as C12 for WeeklyRebalance x 5 weekdays, DailyRebalance, EndOfMonthRebalance (each '
-             'x pre-market flag) and BuyAndHoldRebalance: exact date sets, stamps, strict order, and membership of every '
-             'instant in the real clock stream for the same range (the test the session uses); invalid weekdays refused.',
+        text='The same calendar enumeration (incl. ranges of 1-3 years and starts with a sub-second part) for WeeklyRebalance x 5 weekdays, DailyRebalance, EndOfMonthRebalance (each x pre-market flag) and BuyAndHoldRebalance: exact date sets, stamps, strict order, and membership of every instant in the real clock stream for the same range; invalid weekdays refused.',
         note='Range membership at date granularity; start time of day <= 14:30.',
         design='5/C13'),
     'C06': dict(
         technique='exhaustive dataset x query enumeration on the real CSV data source vs list-based point-in-time lookup + truncation differential',
-        text='Every CSV dataset over a 5-day window with weekend/leap-day gaps (all non-empty row subsets up to 4 rows x '
-             'missing-cell patterns x row orders x adjusted/unadjusted) is written to scratch and loaded by the real '
-             'CSVDailyBarDataSource; every query instant from before the first row to after the last (8 times of day incl. the '
-             '14:30:00 / 21:00:00 boundaries and one second either side) is compared with a reference lookup, with the data '
-             'handler views (one and two sources, assets starting later) and, without any expected value, with the same query '
-             'on the file truncated to rows dated <= t.',
+        text='Every CSV dataset over a 5-day window with weekend/leap-day gaps (row subsets x missing-cell patterns x row orders x adjusted/unadjusted) and files whose rows lie decades apart (1950-2099), loaded by the real CSVDailyBarDataSource; every query instant around every row (12 times of day incl. both boundaries, one second and fractions of a second either side) is compared with a reference lookup and the handler views (one and two sources), asked in ascending, descending and zig-zag order and in other time zones on fresh source objects, and - without any expected value - with the same query on the file truncated to rows dated <= t.',
         note='Trusted: the reference lookup (python lists). Lone-missing Close with Adj Close present is excluded (undefined).',
         design='5/C06'),
     'C17': dict(
         technique='exhaustive prefix-closed enumeration of equity curves vs list-based definitions + metamorphic scaling',
-        text='Every curve grown from 100 by a 4-5 value step alphabet up to 6-7 observations on 4 calendars (year end, leap-day '
-             'month end, mid-year, new year) is fed to the real performance functions, JSONStatistics (incl. file round trip) '
-             'and TearsheetStatistics.get_results: returns, cumulative returns, weekly/monthly/yearly aggregates, drawdown '
-             'series / maximum / duration, CAGR, Sharpe, Sortino vs definitions on python lists; x2 scaling bit-for-bit, x3.7 '
-             'within tolerance; tearsheet = JSON.',
+        text='Every curve grown from 100 by a step alphabet up to 6-7 observations on 4 calendars, curves with moves of 1e-6, and year-long periodic curves: real performance functions, JSONStatistics (file round trip, also as benchmark_curve) and TearsheetStatistics (also on a frame derived from one it already processed) vs list-based definitions; scalings x2 (bit-for-bit), x3.7, x1e7, x1e-5.',
         note='Drawdown definition evaluated on the reported cumulative series (float-noise safe). Order of aggregate groups is not compared.',
         design='5/C17'),
     'C08': dict(
         technique='exhaustive configuration/schedule enumeration of complete real sessions vs independent reference simulator',
-        text='Full Cartesian product of weight vectors (1-3 assets, long-only and signed), price-path shapes, 8 schedules '
-             '(weekly x 5, daily, end-of-month, buy-and-hold@14:30), 7 start alignments (and start time, length, buffer / '
-             'leverage, fee, cash in thorough): each point is a complete BacktestTradingSession on a CSV market loaded by the '
-             'real data source, compared fill by fill (time, asset, quantity, price, commission), final cash, holdings and '
-             'equity point by point with refmodel.Backtest, written from the documented rules in Fractions.',
+        text='Full Cartesian product of weight vectors (1-3 assets, long-only and signed, incl. weights needing six decimals), price-path shapes, 8 schedules, 7 start alignments, fees and cash levels (incl. one where targets toggle between 0 and 1 share and a 50 M account), 70-day and 13-month sessions, sessions with event printing on, an idle second portfolio, and an unrelated market traded earlier in the process: each complete BacktestTradingSession is compared fill by fill, cash, holdings and equity point by point with refmodel.Backtest (Fractions, written from the documented rules).',
         note='Trusted: the reference simulator. Sessions where the rule hits an exact floor/rounding boundary are skipped and counted.',
         design='5/C08'),
     'C14': dict(
         technique='exhaustive start/end/burn-in/schedule enumeration of complete real sessions vs calendar reference + ledger replay',
-        text='Full product of start (7 consecutive days x 00:00/14:30), length, burn-in (none, before start, every day of the range x '
-             'boundary times incl. exactly 21:00 and 21:01) and 8 rebalance kinds: the instants at which portfolio construction '
-             'ran, every fill instant, the equity dates and values (ledger replay of the recorded fills at that close) and both '
-             'user-facing tables are compared with the reference.',
+        text='Full product of start (7 consecutive days x 00:00/14:30), length, burn-in (none, before start, every day x boundary times incl. 21:00 / 21:01) and 8 rebalance kinds, plus 70-day sessions and the no-burn-in sessions repeated after the burn-in ones: construction instants, fill instants, equity dates/values (ledger replay) and both user tables, which are also modified by the caller and asked for again.',
         note='Trusted: datetime calendar reference. Tables only consulted with >= 1 rebalance and a non-empty curve (quantifier).',
         design='5/C14'),
     'C16': dict(
         technique='explicit-state BFS to fixpoint over price streams on the real signals + exhaustive session cadence enumeration',
-        text='Part 1: for each signal class and every non-empty lookback subset the search over append(asset, price) streams closes '
-             '(state = true trailing window U actual deque contents), so definitions and non-interference hold for streams of '
-             'every length over the alphabet. Part 2: complete sessions with a real SignalsCollection over start alignments, '
-             'lengths and every universe-entry variant of a second asset (before start, at open, exactly at / one second after '
-             'each close, after the end, never): each buffer holds exactly the closes since entry, one per business day.',
+        text="Part 1: for each signal class and lookback subset the search over append(asset, price) streams closes (state = true trailing window U actual deque contents) - assets known at creation, late assets, and an asset whose name extends another one's. Part 2: complete sessions with a real SignalsCollection (two lookbacks) over start alignments, lengths, every universe-entry variant of a second asset in both mapping orders, and a handler that was given a universe: buffers and the values read through __call__.",
         note='Trusted: list-based definitions; buffer contents read from AssetPriceBuffers.prices.',
         design='5/C16'),
     'C19': dict(
         technique='exhaustive grids (membership, optimisers) + exhaustive entry-time x schedule enumeration of complete real sessions',
-        text='All entry maps over 3 assets x query instants around the boundary on the real universes; all weight dictionaries over '
-             '<= 3 assets through both optimisers; and the full product schedule x sizing x entry time of a late asset (incl. '
-             'exactly on, one minute before and after every rebalance instant) as complete sessions: allocation keys, fills and '
-             'positions only at rebalances >= entry and from the first such rebalance on.',
+        text='All entry maps over 3 assets (in UTC, New-York and Tokyo time) x every single, ascending and ordered pair of query instants on one universe object, universes of 10-64 assets, all weight dictionaries through both optimisers, the full product schedule x sizing x entry time of a late asset as complete sessions (also on pre-queried universe objects), and a static universe with signals and late data.',
         note='Order of the dynamic universe list not compared.',
         design='5/C19'),
     'C07': dict(
         technique='exhaustive (configuration x cut day x future rewrite) enumeration of pairs of complete real sessions, bit-for-bit prefix comparison',
-        text='For every market (incl. an asset whose data start later and a market with missing cells) and every configuration of the '
-             'product alpha {fixed, single-signal, momentum top-1, SMA trend, inverse volatility via real signals} x universe {static, '
-             'dynamic} x 5 rebalance kinds x sizing x fee x burn-in, the real session is run on the full data and on every rewritten '
-             'world (every cut day of the window incl. weekend days x future rows removed / x3 / x0.25 / blanked / constant / '
-             'reversed); fills, history, equity and allocations dated <= T must be bit-identical and failures <= T identical.',
-        note='Differential oracle, no expected values; comparison only between two runs of the same code in one interpreter. Quick thins '
-             'the configuration product to one third (every value of every dimension kept); thorough is the full product.',
+        text='For every market (late-starting asset, missing cells, gaps with equal row counts, blank leading cells, zero-volume bars, a second data source) and every configuration of alpha {fixed, single-signal, momentum top-1, SMA trend, inverse vol via real signals} x universe x 5 rebalance kinds x sizing x fee x burn-in, the real session is run on the full data and on every rewritten world (every cut day incl. weekends x future rows removed / scaled / blanked / constant / reversed), each world in its own directory and on its own source objects; everything dated <= T must be bit-identical.',
+        note='Differential oracle, no expected values; comparison only between two runs of the same code in one interpreter. Quick thins the configuration product to one third (every value of every dimension kept); thorough is the full product.',
         design='5/C07'),
     'C09': dict(
         technique='explicit-state BFS over rebalance rounds on the real construction model, sizer and broker',
-        text='One event = universe subset x alpha weight dictionary (subset / superset / disjoint from holdings, zero weights, an asset in '
-             'no universe) x price table; a round constructs orders at a close, fills them at the next open; orders must equal target '
-             'minus held for exactly universe U held U alpha keys (ascending, no zero, no duplicate), the recorded allocation row must '
-             'cover that set, and holdings after the fills must equal the target. 4 initial holdings, full 4200-event menu in round 1, '
-             'reduced menu in later rounds, both sizers.',
+        text='BFS over rebalance rounds on the real PortfolioConstructionModel + sizer + broker: universe subset x alpha weight dictionary (subset / superset / disjoint, zero weights, an asset of no universe) x price table; orders = target - held for exactly universe U held U alpha keys, allocation row, holdings after the fills. Five initial holdings (incl. a one-share penny holding), numpy-string symbols, and 50 M accounts where the target moves by a few shares in millions.',
         note='The sizer is trusted as a function (decided by C10/C11). Stub universe/alpha/data handler.',
         design='5/C09'),
     'C18': dict(
         technique='stateless choice-sequence (deviation-bounded) exploration of set-iteration order and order-id rank + hash-seed subprocesses + shared-source histories',
-        text='(1) ChoiceSet is injected as set/frozenset into all qstrader modules and uuid4 is replaced by a rank-choosing seam; every '
-             'execution with <= 2 deviations (quick: 1 for configurations with > 8 choice points) must give one digest per '
-             'configuration; (2) fresh interpreters under hash seeds realising all 6 orders of the witness set, plus random; (3) all '
-             'ordered pairs of configurations back to back on the same memoised data source, repeats, and a burst of unrelated queries.',
-        note='Set literals/comprehensions cannot be intercepted in-process (covered by the hash-seed runs only). Digest = fills without '
-             'order ids, equity curve, target allocations with key order.',
+        text='(1) ChoiceSet injected as set/frozenset into all qstrader modules and uuid4 replaced by a rank-choosing seam: every execution with <= 2 deviations must give one digest; (2) fresh interpreters under hash seeds realising all 6 orders of the witness set; (3) process histories: ordered pairs of configurations on the same memoised source, another market first, the same directory rewritten, the same universe object twice, a burst of queries - each compared with the digest from a pristine process. Configurations include a late-data market and two data sources.',
+        note='Set literals/comprehensions cannot be intercepted in-process (covered by the hash-seed runs only). Digest = fills without order ids, equity curve, target allocations with key order.',
         design='5/C18'),
 }
 
